@@ -112,40 +112,37 @@ def procEOL (s : RS) : RS :=
   | .eatCRNL => ⟨.startRecord, s.field, s.fields⟩
   | .error => s
 
-def runLine (delim : Char) (s : RS) (line : Str) : RS := procEOL (line.foldl (procChar delim) s)
+/-- does a line of the text stream end after character `c`?  The reader is fed the lines of a stream opened
+with `newline=''`: a line ends after "\n", after "\r\n", or after a "\r" that is not followed by "\n" -/
+def lineEnds (c : Char) (rest : Str) : Bool :=
+  c == '\n' || (c == '\r' && rest.head? != some '\n')
 
-/-- `Reader_iternext` over the remaining lines: a record is produced whenever the state is back
-at START_RECORD after a line; at end of input an unfinished quoted field is flushed -/
-def readLines (delim : Char) : RS → List Str → Except String (List Row)
-  | s, [] =>
-    if s.field ≠ [] ∨ s.st = .inQuoted then .ok [s.fields ++ [s.field]] else .ok []
-  | s, line :: rest =>
-    let s2 := runLine delim s line
-    if s2.st = .error then .error "new-line character seen in unquoted field"
-    else if s2.st = .startRecord then
-      match readLines delim reset rest with
-      | .ok rs => .ok (s2.fields :: rs)
-      | .error e => .error e
-    else readLines delim s2 rest
-
-/-- line iteration of a text stream opened with `newline=''`: a line ends after "\n", "\r\n"
-or a lone "\r" (terminators kept) -/
-def splitLinesAux (acc : Str) : Str → List Str
-  | [] => if acc.isEmpty then [] else [acc]
-  | c :: cs =>
-    if c = '\n' then (acc ++ [c]) :: splitLinesAux [] cs
-    else if c = '\r' then
-      match cs with
-      | [] => [acc ++ [c]]
-      | c2 :: cs2 =>
-        if c2 = '\n' then (acc ++ [c, c2]) :: splitLinesAux [] cs2
-        else (acc ++ [c]) :: splitLinesAux [] (c2 :: cs2)
-    else splitLinesAux (acc ++ [c]) cs
-
-def splitLines (t : Str) : List Str := splitLinesAux [] t
+/-- `Reader_iternext` over the characters of the text: every character goes through `parse_process_char`;
+at the end of a line the end-of-line pseudo character follows, and a record is produced if the state is back
+at START_RECORD (otherwise — inside a quoted field — the next line continues the record).  `mid` says
+whether a character of the current line has been consumed (a last line without terminator still gets its
+end-of-line).  At end of input an unfinished quoted field is flushed. -/
+def readChars (delim : Char) : RS → Bool → Str → Except String (List Row)
+  | s, mid, [] =>
+    let s := if mid then procEOL s else s
+    if s.st = .error then .error "new-line character seen in unquoted field"
+    else if mid ∧ s.st = .startRecord then .ok [s.fields]
+    else if s.field ≠ [] ∨ s.st = .inQuoted then .ok [s.fields ++ [s.field]]
+    else .ok []
+  | s, _, c :: cs =>
+    let s1 := procChar delim s c
+    if lineEnds c cs then
+      let s2 := procEOL s1
+      if s2.st = .error then .error "new-line character seen in unquoted field"
+      else if s2.st = .startRecord then
+        match readChars delim reset false cs with
+        | .ok rs => .ok (s2.fields :: rs)
+        | .error e => .error e
+      else readChars delim s2 false cs
+    else readChars delim s1 true cs
 
 def csvRead (delim : Char) (text : Str) : Except String (List Row) :=
-  readLines delim reset (splitLines text)
+  readChars delim reset false text
 
 /-! ## the table layer: `Table.write` (delimited branch) and `load_delimited` -/
 
@@ -180,5 +177,11 @@ def loadDelimited (delim : Char) (withTitle withLegend : Bool) (text : Str) :
         | none => .error "IndexError"
         | some l => .ok (header, dropLast rows, title, l.flatten)
       else .ok (header, rows, title, [])
+
+/-! ## the formatting writers `to_csv()` / `to_tsv()` / `to_string(format="csv"|"tsv")`
+
+`format/table.py::separator_format` (since commit 4196fd381): header and rows go through `csv.writer`
+(`lineterminator="\n"`), the final newline is dropped (`out.getvalue()[:-1]`). -/
+def toCsvText (d : Dialect) (header : Row) (rows : List Row) : Str := (csvWrite d (header :: rows)).dropLast
 
 end CogentModel.Csv
